@@ -196,3 +196,7 @@ Definition selected (prefs : list (query * encoding)) (recs : list enc_rec)
   exists before q after,
     prefs = before ++ (q, enc) :: after /\ first_match q recs r /\
     forall q' e' x, In (q', e') before -> In x recs -> ~ matches q' x.
+
+(* the selection the documented list prescribes, executable (used by the correspondence judge) *)
+Definition spec_find_good (recs : list enc_rec) : option (encoding * enc_rec) :=
+  find_good_in spec_preferences recs.
